@@ -17,15 +17,15 @@ import (
 // C08Case: a byte string and the construction parameters of the parameterised literal
 // parsers; every parser is applied at every offset.
 type C08Case struct {
-	Data    []byte `json:"data"`
-	True    string `json:"true"`
-	False   string `json:"false"`
-	Nil     string `json:"nil"`
-	Word    string `json:"word"`
-	Op      string `json:"op"`
-	Rune    rune   `json:"rune"`
-	Regexp  string `json:"regexp"`
-	Group   int    `json:"group"`
+	Data   []byte `json:"data"`
+	True   string `json:"true"`
+	False  string `json:"false"`
+	Nil    string `json:"nil"`
+	Word   string `json:"word"`
+	Op     string `json:"op"`
+	Rune   rune   `json:"rune"`
+	Regexp string `json:"regexp"`
+	Group  int    `json:"group"`
 }
 
 func (c *C08Case) Describe() string {
